@@ -103,6 +103,9 @@ theorem mapM_ok_of_forall_str {α β : Type} (l : List α) (f : α → Except St
     simp [List.mapM_cons, h a (by simp), ih (fun b hb => h b (List.mem_cons_of_mem _ hb)), bind, Except.bind, pure,
       Except.pure]
 
+theorem nat_ne_aux (m i : Nat) : ¬ m = m + 1 + i := by omega
+theorem nat_eq_aux (m i : Nat) : m + (i + 1) = m + 1 + i := by omega
+
 /-- An association list whose names are `a, a+1, …` holds, at position `i`, the entry found by looking up `a + i`. -/
 theorem rs_getElem (rs : Ress) (a : Nat) (h : rnames rs = List.range' a rs.length) :
     ∀ i (hi : i < rs.length), rs[i] = (a + i, rs.get (a + i)) := by
@@ -117,10 +120,10 @@ theorem rs_getElem (rs : Ress) (a : Nat) (h : rnames rs = List.range' a rs.lengt
     cases i with
     | zero => simp [Ress.get]
     | succ i =>
-      have := ih (m + 1) hrest i (by simpa using hi)
+      have := ih (m + 1) hrest i (by simp only [List.length_cons] at hi; omega)
       simp only [List.getElem_cons_succ, this, Ress.get]
-      have hne : ¬ m = m + 1 + i := by omega
-      have e1 : m + (i + 1) = m + 1 + i := by omega
+      have hne : ¬ (m : Nat) = m + 1 + i := nat_ne_aux m i
+      have e1 : (m : Nat) + (i + 1) = m + 1 + i := nat_eq_aux m i
       rw [e1]; simp [hne]
 
 theorem senv_getElem (senv : Spec.Env) (a : Nat) (h : snames senv = List.range' a senv.length) :
@@ -136,9 +139,9 @@ theorem senv_getElem (senv : Spec.Env) (a : Nat) (h : snames senv = List.range' 
     cases i with
     | zero => exact ⟨r, by simp, by simp [Spec.Env.get]⟩
     | succ i =>
-      obtain ⟨r', h1, h2⟩ := ih (m + 1) hrest i (by simpa using hi)
-      have hne : ¬ m = m + 1 + i := by omega
-      have e1 : m + (i + 1) = m + 1 + i := by omega
+      obtain ⟨r', h1, h2⟩ := ih (m + 1) hrest i (by simp only [List.length_cons] at hi; omega)
+      have hne : ¬ (m : Nat) = m + 1 + i := nat_ne_aux m i
+      have e1 : (m : Nat) + (i + 1) = m + 1 + i := nat_eq_aux m i
       refine ⟨r', by simp [h1, e1], ?_⟩
       rw [e1]; simp [Spec.Env.get, hne, h2]
 
